@@ -25,6 +25,11 @@ fn fail(kind: &str, t: usize, k: usize) -> (i32, u64) {
             let p = CString::new(format!("/proc/self/status/tag-{}-{}-x", t, k)).unwrap();
             (unsafe { pathrs_open_root(p.as_ptr()) }, libc::ENOTDIR as u64)
         }
+        "ebadf" => {
+            // a non-negative descriptor number that is not open: the failing system call says EBADF
+            let p = CString::new(format!("tag-{}-{}-x", t, k)).unwrap();
+            (unsafe { pathrs_inroot_resolve(987_654, p.as_ptr()) }, libc::EBADF as u64)
+        }
         "einval_flags" => {
             let p = CString::new(format!("tag-{}-{}-x", t, k)).unwrap();
             // O_CREAT is not allowed for the one-shot open: InvalidArgument -> EINVAL
